@@ -272,3 +272,24 @@ func paramSetPairsRule(c *Check, rule, fnSpec string, validators map[string]stri
 	}
 	c.Req(n >= 2, rule, funcName(fn)+": pairs found", fn.Pos(), fmt.Sprint(n), "no NewParamSetPair calls found")
 }
+
+// allLogsProcessed: a post-transaction hook looks at every log of the receipt: no non-rejecting return sits inside
+// the loop over receipt.Logs (a success return before the loop is exhausted silently drops the later events).
+func allLogsProcessed(c *Check, rule, fnSpec string) {
+	fn := c.F(fnSpec)
+	fa := c.P.FA(fn)
+	for i, r := range fa.NonRejectReturns() {
+		conds := fa.PathCondStrings(r.Block())
+		exhausted, inLoop := false, false
+		for s := range conds {
+			if strings.HasPrefix(s, "(len(") && strings.Contains(s, ".Logs) <= (μ{-1} + 1))") {
+				exhausted = true
+			}
+			if strings.HasPrefix(s, "((μ{-1} + 1) < len(") && strings.HasSuffix(s, ".Logs))") {
+				inLoop = true
+			}
+		}
+		_ = exhausted
+		c.Req(!inLoop, rule, fmt.Sprintf("%s/all-logs-before-success#%d", funcName(fn), i), r.Pos(), "success only after the last log", "a success return is reachable before the loop over the receipt's logs is exhausted: later events of the same transaction are silently skipped")
+	}
+}
